@@ -179,9 +179,12 @@ def nat_peaks(params, model):
         nch = len({hits[i]["channel"] for i in idx if hits[i]["area"] != 0})
         if area < minarea or nch < minch:
             continue
-        want.append((start, end + re, area, len(idx)))
-    got = [(int(p["time"]), int(p["time"] + p["length"] * p["dt"]), float(p["area"]), int(p["n_hits"])) for p in peaks]
+        per = [sum(hits[i]["area"] * (1 if c == 0 else 2) for i in idx if hits[i]["channel"] == c) for c in (0, 1)]
+        want.append((start, end + re, area, len(idx), per))
+    got = [(int(p["time"]), int(p["time"] + p["length"] * p["dt"]), float(p["area"]), int(p["n_hits"]),
+            [float(x) for x in p["area_per_channel"]]) for p in peaks]
     ok = len(got) == len(want) and all(g[0] == w[0] and g[1] == w[1] and abs(g[2] - w[2]) < 1e-3 and g[3] == w[3]
+                                       and all(abs(a - b) < 1e-3 for a, b in zip(g[4], w[4]))
                                        for g, w in zip(got, want))
     if ok and any(got[i + 1][0] < got[i][1] for i in range(len(got) - 1)):
         return {"ok": False, "label": "peaks:peaks overlap after a max_duration cut",
